@@ -326,6 +326,154 @@ def _systematic(run, pairs, max_runs, max_pre):
                     else 'pairs_cut_at_run_budget'] += 1
 
 
+# statements whose value is known without evaluating them first: the first
+# evaluations ever made in a process run concurrently
+_STAMPS = ['%04d-%02d-%02d' % (1990 + i // 28, 1 + i % 12, 1 + i % 28)
+           for i in range(420)]
+COLD_FREE = [
+    ('def(f4, [$1, $2, $3, $4]) -> f4(1, 2, 3, 4)', None, [1, 2, 3, 4]),
+    ('def(f5, [$5, $4, $3, $2, $1]) -> [f5(1, 2, 3, 4, 5), f5(6, 7, 8, 9, 0)]',
+     None, [[5, 4, 3, 2, 1], [0, 9, 8, 7, 6]]),
+    ('[1, 2].aggregate($1 + $2) + [[1, 2, 3]].select(let(a => $[0], b => '
+     '$[1], c => $[2]) -> $a + $b + $c).first()', None, 9),
+    ('$.select(datetime($, "%Y-%m-%d").year).sum()', _STAMPS,
+     sum(1990 + i // 28 for i in range(420))),
+    ('$.select(datetime($, "%Y-%m-%d").day).sum()', _STAMPS[::-1],
+     sum(1 + i % 28 for i in range(420))),
+    ("$.select(datetime($, '%Y-%m-%d').format('%d')).distinct().len()",
+     _STAMPS[100:], 28),
+]
+
+
+def _cold_free_shard(run, which, n_threads, rounds):
+    """free-running threads in a process in which nothing has been
+    evaluated yet (the shard process is forked before any evaluation): no
+    warm-up initialises lazily built tables for them"""
+    import yaql as _yaql
+    texts = [COLD_FREE[i % len(COLD_FREE)] for i in which]
+    eng = common.engine(cache=False)
+    stmts = [(eng(t), d, e) for t, d, e in texts]
+    ctx = _yaql.create_context()
+    out = []
+    barrier = threading.Barrier(n_threads)
+    old = sys.getswitchinterval()
+    sys.setswitchinterval(1e-6)
+
+    def worker(k):
+        barrier.wait()
+        for r in range(rounds):
+            for j in range(len(stmts)):
+                st_, d, e = stmts[(j + k) % len(stmts)]
+                try:
+                    got = ('ok', st_.evaluate(
+                        data=d, context=ctx.create_child_context()))
+                except Exception as ex:   # noqa
+                    got = ('exc', type(ex).__name__)
+                if got != ('ok', e):
+                    out.append((str(st_), got, e))
+    try:
+        ts = [threading.Thread(target=worker, args=(k,))
+              for k in range(n_threads)]
+        for t in ts:
+            t.start()
+        for t in ts:
+            t.join()
+    finally:
+        sys.setswitchinterval(old)
+    # ... and once more, alone (a table spoilt by a race stays spoilt)
+    for st_, d, e in stmts:
+        try:
+            got = ('ok', st_.evaluate(data=d,
+                                      context=ctx.create_child_context()))
+        except Exception as ex:   # noqa
+            got = ('exc', type(ex).__name__)
+        if got != ('ok', e):
+            out.append((str(st_), got, e))
+    case = {'kind': 'cold-free', 'which': list(which), 'threads': n_threads,
+            'rounds': rounds}
+    run.case(case, True, cls=['cold-free-running'])
+    run.count(n_threads * rounds * len(stmts), cls='cold-free-evaluations')
+    if out:
+        text, got, e = out[0]
+        run.violate('cold-free-running-result-differs', case,
+                    '%s among the first evaluations of a process, %d '
+                    'threads: %r, expected %r' % (_ic(text), n_threads, got,
+                                                  e), input_class=_ic(text))
+
+
+def _cold_fork_shard(run, n_forks, n_threads):
+    """many first moments: this (never evaluating) process forks n_forks
+    children; in each, n_threads threads make the process's first
+    evaluations at once.  A race on a table that is filled on first use
+    gets one chance per process - here it gets hundreds."""
+    import json
+    import yaql as _yaql
+    eng = common.engine(cache=False)
+    stmts = [(eng(t), e) for t, d, e in COLD_FREE[:3]]
+    ctx = _yaql.create_context()
+    bad = None
+    for i in range(n_forks):
+        r, w = os.pipe()
+        pid = os.fork()
+        if pid == 0:
+            out = []
+            try:
+                sys.setswitchinterval(1e-6)
+                barrier = threading.Barrier(n_threads)
+
+                def worker(k):
+                    st_, e = stmts[(i + k) % len(stmts)] if i % 4 == 3 \
+                        else stmts[i % len(stmts)]
+                    barrier.wait()
+                    try:
+                        got = ('ok', st_.evaluate(
+                            context=ctx.create_child_context()))
+                    except Exception as ex:   # noqa
+                        got = ('exc', type(ex).__name__)
+                    if got != ('ok', e):
+                        out.append([str(st_), repr(got), repr(e)])
+                ts = [threading.Thread(target=worker, args=(k,))
+                      for k in range(n_threads)]
+                for t in ts:
+                    t.start()
+                for t in ts:
+                    t.join()
+                os.write(w, json.dumps(out[:1]).encode())
+            finally:
+                os._exit(0)
+        os.close(w)
+        data = b''
+        while True:
+            chunk = os.read(r, 65536)
+            if not chunk:
+                break
+            data += chunk
+        os.close(r)
+        os.waitpid(pid, 0)
+        got = json.loads(data.decode() or '[]')
+        if got and bad is None:
+            bad = got[0]
+    case = {'kind': 'cold-fork', 'forks': n_forks, 'threads': n_threads}
+    run.case(case, True, cls=['cold-forked-first-evaluations'])
+    run.count(n_forks * n_threads, cls='cold-fork-evaluations')
+    if bad:
+        run.violate('cold-free-running-result-differs', case,
+                    '%s as one of the %d simultaneous first evaluations of a '
+                    'process: %s, expected %s' % (_ic(bad[0]), n_threads,
+                                                  bad[1], bad[2]),
+                    input_class=_ic(bad[0]))
+
+
+def check_cold_fork(run, case):
+    _cold_fork_shard(run, case['forks'], case['threads'])
+
+
+def check_cold_free(run, case):
+    # (replayed in a process that may be warm: the saved case documents the
+    # failure; a cold process is what the shards provide)
+    _cold_free_shard(run, case['which'], case['threads'], case['rounds'])
+
+
 def _free(run, n_threads, per_thread, use_eval=False):
     stmts = statements()
     parent = make_parent()
@@ -619,7 +767,8 @@ def check_free(run, case):
 
 
 REPLAY = {'scheduled': check_scheduled, 'choices': check_choices,
-          'free': check_free, 'cold': check_cold}
+          'free': check_free, 'cold': check_cold,
+          'cold-free': check_cold_free, 'cold-fork': check_cold_fork}
 
 
 @st.composite
@@ -702,5 +851,13 @@ def run(run):
     run.shards(_cold_shard, [(jobs[i::16], 100000 if full else 450)
                              for i in range(16) if jobs[i::16]],
                watchdog=3000)
+    jobs = []
+    for i in range(96 if full else 32):
+        which = [i % 3, 3 + i % 3] if i % 2 else [i % 3, (i + 1) % 3,
+                                                  (i + 2) % 3]
+        jobs.append((which, 3 + i % 3, 6 if full else 3))
+    run.shards(_cold_free_shard, jobs, watchdog=600)
+    run.shards(_cold_fork_shard, [(400 if full else 100, 4 + i % 5)
+                                  for i in range(16)], watchdog=600)
     _free(run, 4, 3000 if full else 250)
     _free(run, 4, 2000 if full else 200, use_eval=True)
